@@ -101,6 +101,11 @@ class CallGraph:
                     tr, _, m = w.rpartition("::")
                     for imp in self._impls.get((tr, m), []):
                         self._edge(p, imp, bb, t, "dyn")
+                    if w == "std::convert::Into::into":
+                        m_ = re.search(r"Into<(.*)>>::into$", t.get("fnargs") or "")
+                        for imp in self._impls.get(("std::convert::From", "from"), []):
+                            if m_ and fns[imp].impl_self == m_.group(1):
+                                self._edge(p, imp, bb, t, "dyn")
                 # formatting machinery
                 last = w.rsplit("::", 1)[-1]
                 if "fmt::rt::Argument" in w and last in FMT_CTORS:
@@ -110,6 +115,8 @@ class CallGraph:
                 # std forwarding impls (Box<T>, Vec<T>, &T, Option<T>, tuples ...)
                 if c not in fns and w in FORWARD_TRAITS:
                     tys = " ".join(g["ty"] for g in t.get("gargs", [])[:1])
+                    if "Clone" in w and tys.startswith(("std::rc::Rc<", "std::sync::Arc<", "&")):
+                        tys = ""   # cloning an Rc / a reference does not clone the pointee
                     m = w.rsplit("::", 1)[-1]
                     if m == "to_string":
                         m = "fmt"
